@@ -17,15 +17,16 @@ RACE_TESTS = {
     "broadcast.": ["TestRace_Broadcast"],
     "csync.Mutex": ["TestRace_CsyncMutex"],
     "csync.RWMutex": ["TestRace_CsyncRWMutex"],
-    "ccontainer.": ["TestRace_CContainer"],
+    "ccontainer.": ["TestRace_CContainer", "TestRace_CContainerVariants"],
     "ccall.": ["TestRace_CallConcurrently"],
     "conc.": ["TestRace_ConcurrentQueue"],
     "cqueue.": ["TestRace_AtomicLIFO"],
     "linkedlist.": ["TestRace_LinkedList"],
     "keyed.KeyedRef": ["TestRace_KeyedRefCount"],
-    "keyed.": ["TestRace_Keyed", "TestRace_KeyedRefCount"],
-    "routine.": ["TestRace_RoutineContainer", "TestRace_StateRoutineContainer"],
-    "refcount.": ["TestRace_RefCount"],
+    "keyed.": ["TestRace_Keyed", "TestRace_KeyedOptions", "TestRace_KeyedRefCount"],
+    "routine.StateRoutineContainer": ["TestRace_StateRoutineContainer", "TestRace_StateRoutineContainerVariants"],
+    "routine.": ["TestRace_RoutineContainer", "TestRace_RoutineContainerOptions", "TestRace_StateRoutineContainer", "TestRace_StateRoutineContainerVariants"],
+    "refcount.": ["TestRace_RefCount", "TestRace_RefCountVariants"],
     "promise.PromiseContainer": ["TestRace_PromiseContainer"],
     "promise.Once": ["TestRace_Once"],
     "promise.": ["TestRace_Promise", "TestRace_PromiseContainer", "TestRace_Once"],
@@ -55,13 +56,22 @@ PROPS = {
         trusted=[
             "THE TRANSLATOR /verif/lockscan (Go 1.23 toolchain, go/packages + go/types from golang.org/x/tools v0.29.0): "
             "the link from 'executions of the Go program' to 'executions conforming to the table' (Lockset/Check.v: conforms) is not proved; "
-            "validated on every run by its seeded self-test (3 discipline violations must be rejected by check_table in Coq) and, "
-            "thorough tier, by free-running -race workloads per type",
+            "validated on every run by its seeded self-test (6 discipline violations, among them the racy twins of the three semantic idioms - "
+            "lock callback bound to a local and called by `go`, field written after the fresh object escaped, node field written after the "
+            "publishing compare-and-swap succeeded - must be rejected by check_table in Coq) and, thorough tier, by free-running -race workloads per type",
             "translator rules that are assumptions about Go / this code base: `defer X.Unlock()` means X is held until the return; "
-            "sync.Once.Do(literal) runs the literal synchronously; a closure passed to Broadcast.HoldLock/TryHoldLock/Wait runs under that "
-            "Broadcast's lock; the broadcast/getWaitCh method values handed to such a callback are only used during it (documented Broadcast "
-            "contract; checked for in-library callers, assumed for clients); a method called on a freshly allocated, not yet escaped receiver "
-            "touches only state owned by it (construct-phase call); structured control flow (goto is reported as a residual); "
+            "sync.Once.Do(f) runs f synchronously; a closure passed to Broadcast.HoldLock/TryHoldLock/Wait runs under that "
+            "Broadcast's lock on the calling goroutine, whether it is written in place or bound to a local variable that is only ever called "
+            "directly or handed to these functions in a plain (not `go`) call; "
+            "the broadcast/getWaitCh method values handed to such a callback are only used during it (documented Broadcast "
+            "contract; checked for in-library callers, assumed for clients); a call on a freshly allocated, not yet escaped receiver "
+            "does not constrain the callee's entry lock set (construct-phase call; what the callee does to the object is followed by the flow "
+            "analysis, anything else it touches gets no lock from this caller); "
+            "construction phase and publish-by-CAS are decided by a flow analysis of the allocating function (lockscan/objflow.go: escape = "
+            "returned / stored / sent / go / closure that does not run inline / passed to a function that is not followed; a CompareAndSwap "
+            "publishes only on its true outcome; direct calls of functions of the scanned files are followed, depth <= 4, no recursion), whose "
+            "imprecision is always on the rejecting side; unexported helpers are assumed to be called from the 21 scanned files only; "
+            "structured control flow (goto is reported as a residual); "
             "addresses of tabled fields are not taken (reported as a residual); slice/map contents are conflated with the field that holds them",
             "only the 21 files of the property are scanned: the With* option closures (keyed/keyed-opts.go, routine/options.go) that write "
             "releaseDelay/exitedCbs/backoffFactory/retryBo run inside the constructors before the object is returned and are outside the claim",
